@@ -18,6 +18,7 @@ import (
 	authtypes "github.com/cosmos/cosmos-sdk/x/auth/types"
 	vestexported "github.com/cosmos/cosmos-sdk/x/auth/vesting/exported"
 	vestingtypes "github.com/cosmos/cosmos-sdk/x/auth/vesting/types"
+	banktypes "github.com/cosmos/cosmos-sdk/x/bank/types"
 	"github.com/ethereum/go-ethereum/common"
 	"github.com/ethereum/go-ethereum/core/vm"
 	"github.com/ethereum/go-ethereum/crypto"
@@ -100,6 +101,8 @@ func Run(run *vh.Run) {
 	run.Floor("transactions touching protected accounts", run.Get("tx_touching_protected"), int64(run.N(300, 5000)))
 	run.Floor("touches of vesting accounts unexpired as of block time", run.Get("touch_unexpired_vesting"), int64(run.N(60, 1000)))
 	run.Floor("touches of vesting accounts expired as of block time", run.Get("touch_expired_vesting"), int64(run.N(20, 300)))
+	run.Floor("contracts deleted after receiving value following their SELFDESTRUCT", run.Get("vaults_deleted_after_being_paid_again"), int64(run.N(6, 60)))
+	run.Floor("of these, holding a second denomination", run.Get("vaults_deleted_while_holding_a_second_denomination"), int64(run.N(3, 30)))
 	run.Floor("deletions observed", run.Get("accounts_deleted"), int64(run.N(10, 150)))
 	run.Assumptions = append(run.Assumptions, "delegation of locked coins is not 'spending' (standard vesting semantics); the staking precompile is not part of this workload",
 		"an account that existed with code before the transaction and is deleted must be one whose code contains a reachable SELFDESTRUCT (known from the generator)")
@@ -139,6 +142,9 @@ func world(run *vh.Run, label string, wi, nBlocks int) {
 	// transaction (or CREATE) whose target address is a protected account must fail as a whole and leave it alone
 	creator := vh.NewAcct(r)
 	accts = append(accts, vh.GenAccount{Addr: creator.Addr, Coins: vh.NativeCoins(1000)})
+	// a holder of both denominations that pays a second denomination into contracts about to self-destruct
+	donor := vh.NewAcct(r)
+	accts = append(accts, vh.GenAccount{Addr: donor.Addr, Coins: vh.NativeCoins(1000).Add(sdk.NewCoin(vh.SecondDenom, sdkmath.NewInt(1_000_000)))})
 	for n := uint64(0); n < 8; n++ {
 		at := crypto.CreateAddress(creator.Addr, n)
 		switch n % 4 {
@@ -296,6 +302,29 @@ func world(run *vh.Run, label string, wi, nBlocks int) {
 			}
 		}
 		runBlock(plans)
+		if b%10 == 4 {
+			// a contract that holds a second denomination (paid in through x/bank) is paid, self-destructs and is paid
+			// AGAIN inside one transaction: it is deleted with everything it holds, in every denomination
+			owner := vh.Pick(r, w.EOAs)
+			ben := common.BytesToAddress(r.Bytes(20))
+			sc := w.PlanDestroyThenPay(owner, ben, big.NewInt(int64(1+r.Intn(1000))*1_000_000_000))
+			tracked[sc.Vault], tracked[sc.Orch], tracked[ben] = "contract:vault", "contract", "base:fresh"
+			selfDestructable[sc.Vault] = true
+			runBlock([]*vh.TxPlan{tag(sc.Deploy[0], "deploy-vault"), tag(sc.Deploy[1], "deploy-orchestrator")})
+			withSecond := r.Chance(2, 3)
+			if withSecond {
+				msg := banktypes.NewMsgSend(donor.Acc(), sc.Vault.Bytes(), sdk.NewCoins(sdk.NewCoin(vh.SecondDenom, sdkmath.NewInt(int64(1+r.Intn(1000))))))
+				bz := w.C.CosmosTx(donor, []sdk.Msg{msg}, &vh.CosmosOpts{Gas: 200000})
+				runBlock([]*vh.TxPlan{tag(&vh.TxPlan{Kind: "cosmos-send", Class: "ok", Sender: donor, Bytes: bz}, "second-denom-into-vault")})
+			}
+			runBlock([]*vh.TxPlan{tag(sc.Fire(w, vh.Pick(r, w.EOAs)), "pay-destroy-pay-again")})
+			if !w.C.App.AccountKeeper.HasAccount(w.C.QueryCtx(), sc.Vault.Bytes()) {
+				run.Count("vaults_deleted_after_being_paid_again", 1)
+				if withSecond {
+					run.Count("vaults_deleted_while_holding_a_second_denomination", 1)
+				}
+			}
+		}
 	}
 }
 
